@@ -68,7 +68,9 @@ func (f *WithInputFromOctets) Call(s *slip.Scope, args slip.List, depth int) (re
 	s2 := s.NewScope()
 	s2.Let(sym, slip.NewInputStream(bytes.NewReader(data)))
 	for i := range forms {
-		result = slip.EvalArg(s2, forms, i, d2)
+		if result = slip.EvalArg(s2, forms, i, d2); slip.IsExit(result) {
+			break
+		}
 	}
 	return
 }
